@@ -157,8 +157,11 @@ class Gate(dict):
         if any(ds[k] != do[k] for k in ds if k not in ignore_list):
             return False
 
-        parameter = round(ds["parameter"] % (2 * pi), 7) if isinstance(ds["parameter"], (float, int)) else ds["parameter"]
-        other_parameter = round(do["parameter"] % (2 * pi), 7) if isinstance(do["parameter"], (float, int)) else do["parameter"]
+        # Angles are compared modulo the period of the operation (up to a global phase): 2*pi in general, but 4*pi
+        # for controlled rotations, for which the -1 picked up after 2*pi is a relative phase on the control qubits.
+        period = 4 * pi if ds["name"] in {"CRX", "CRY", "CRZ"} else 2 * pi
+        parameter = round(ds["parameter"] % period, 7) if isinstance(ds["parameter"], (float, int)) else ds["parameter"]
+        other_parameter = round(do["parameter"] % period, 7) if isinstance(do["parameter"], (float, int)) else do["parameter"]
 
         return parameter == other_parameter
 
